@@ -457,9 +457,11 @@ def unused(ctx, R, py, modules, cx=None):
             if not ps:
                 continue
             body = [st for st in f.body if not (isinstance(st, ast.Expr) and isinstance(st.value, ast.Constant))]
-            if all(isinstance(st, (ast.Pass, ast.Raise)) or (isinstance(st, ast.Return) and (
+            trivial = lambda st: isinstance(st, ast.Assign) and isinstance(st.value, ast.Constant) and \
+                all(isinstance(t_, ast.Name) for t_ in st.targets)
+            if all(isinstance(st, (ast.Pass, ast.Raise)) or trivial(st) or (isinstance(st, ast.Return) and (
                     st.value is None or isinstance(st.value, ast.Constant))) for st in body):
-                continue        # abstract / stub
+                continue        # abstract / stub (constant assignments aside)
             used = {x.id for x in ast.walk(f) if isinstance(x, ast.Name) and isinstance(x.ctx, (ast.Load, ast.Del))}
             used |= {x.id for x in ast.walk(f) if isinstance(x, ast.Name) and isinstance(x.ctx, ast.Store) and False}
             n += 1
